@@ -340,8 +340,9 @@ def rule_r4(prog, res) -> None:
         srcs = []
         for a in z[0].args:
             vals = [v for v in all_def_values(fc.node, a.id)] if isinstance(a, ast.Name) else []
-            srcs.append({n_.id for v in vals if v is not None for n_ in ast.walk(v) if isinstance(n_, ast.Name)})
-        if all("ref_cat" in s for s in srcs[:2]):
+            # the objects whose methods produce the value (`cat.keys()`, `cat.get_centers()`), whatever the local is called
+            srcs.append({n_.func.value.id for v in vals if v is not None for n_ in ast.walk(v) if isinstance(n_, ast.Call) and isinstance(n_.func, ast.Attribute) and isinstance(n_.func.value, ast.Name)})
+        if srcs[0] & srcs[1]:
             res.ok("C12.R4", res.site(fc, "zip(ids, centers, radii)"), "ids and centres are taken from the same catalog in the same order")
         else:
             res.violation("C12.R4", fc, z[0], "ids, centres and radii zipped for the linkage do not come from the same catalog", key_extra="link-zip-sources")
